@@ -397,7 +397,7 @@ func runC01(c *eng.Ctx) {
 							return false
 						}
 						fv, ok := u.X.(*ssa.FreeVar)
-						return ok && fv.Name() == "err"
+						return ok && eng.LocalName(fv) == "err"
 					}, eng.DescIs("nil"))) > 0
 					why = "facts in the deferred closure: " + strings.Join(gf.Render(fs), " ; ")
 				}
@@ -812,8 +812,8 @@ func logCodecs(c *eng.Ctx) {
 						// constructor argument: NewFileMeta(fileNumber, minKey, maxKey, fileSize)
 						if f := x.Common().StaticCallee(); f != nil && f.Name() == "NewFileMeta" {
 							for i, a := range x.Common().Args {
-								if a == v && i < f.Signature.Params().Len() {
-									fld = "file." + f.Signature.Params().At(i).Name()
+								if a == v && i < len(f.Params) {
+									fld = "file." + eng.ParamName(f.Params[i])
 								}
 							}
 						} else if val, ok := ref.(ssa.Value); ok {
